@@ -64,7 +64,13 @@ TagSets == {<<>>, <<"pets">>, <<"pets", "users">>}
 RespMaps == {"none", "default_only", "ok_and_default", "three"}
 \* inline_params: a `Parameters:` block inside the swagger:route comment (+ name: ... in: ... type: ...)
 Blocks  == {"consumes", "produces", "schemes", "deprecated", "security", "summary", "inline_params"}
-InlineParam == [name |-> "ilimit", loc |-> "query", type |-> "integer", format |-> "int32", required |-> FALSE]
+\* three of them: the first declares an enum and a default, the second bounds, the third nothing - what one
+\* parameter of the block declares says nothing about the next
+InlineParams == {[name |-> "isort", loc |-> "query", type |-> "string", required |-> FALSE, enum |-> <<"asc", "desc">>, default |-> "asc"],
+                 [name |-> "ilimit", loc |-> "query", type |-> "integer", format |-> "int32", required |-> FALSE, minimum |-> 1, maximum |-> 50],
+                 [name |-> "ioffset", loc |-> "query", type |-> "integer", required |-> FALSE]}
+\* the constraint keywords of a parameter as the harness abstracts them
+ConstraintKeys == {"enum", "default", "minimum", "maximum", "minLength", "maxLength", "minItems", "itemsMinLength", "itemsMinimum", "itemsMaximum"}
 ParamKinds == {"q_string", "q_int_bounds", "q_strings_items", "q_ptr_items", "path_int", "header_str_len", "body_model", "form_bool", "q_required"}
 Spellings == {"long", "short"}          \* "Minimum: 1" vs "min: 1", "Required:" vs "required:"
 
@@ -99,7 +105,7 @@ ExpectedOp(o) ==
    produces |-> IF "produces" \in o.blocks THEN <<"application/json">> ELSE <<>>,
    schemes  |-> IF "schemes" \in o.blocks THEN <<"http", "https">> ELSE <<>>,
    deprecated |-> "deprecated" \in o.blocks,
-   params |-> {ParamOf(k) : k \in o.params} \cup (IF "inline_params" \in o.blocks THEN {InlineParam} ELSE {})]
+   params |-> {ParamOf(k) : k \in o.params} \cup (IF "inline_params" \in o.blocks THEN InlineParams ELSE {})]
 
 \* model menu
 ModelKinds == {"plain", "validated", "allof", "strfmt", "ignored_field", "enum", "nested", "named_like_response"}
@@ -130,5 +136,9 @@ OpWhy(e, o2) ==
   ELSE IF e.schemes # <<>> /\ o2.schemes # e.schemes THEN "schemes"
   ELSE IF o2.deprecated # e.deprecated THEN "deprecated"
   ELSE IF \E p \in e.params : ~ParamMatches(p, {o2.params[i] : i \in DOMAIN o2.params}) THEN "parameters"
+  \* "with the declared ... constraints": the parameter of the document carries no constraint its declaration lacks
+  ELSE IF \E p \in e.params : \E i \in DOMAIN o2.params :
+            o2.params[i].name = p.name /\ o2.params[i].loc = p.loc /\ ~((DOMAIN o2.params[i]) \cap ConstraintKeys \subseteq DOMAIN p)
+    THEN "parameters: a constraint that was not declared"
   ELSE "ok"
 =============================================================================
